@@ -1,5 +1,6 @@
 import PdshVerif.Base.Hex
 import PdshVerif.Cbuf.Pair
+import PdshVerif.Cbuf.OutParam
 import Driver.Util
 
 /-! line protocol of the cbuf engine: the same op lines drive the index model and the FIFO spec.
@@ -69,9 +70,13 @@ def parseOp (ws : List String) : Option (OpR × Fmt) :=
     | _, _ => none
   | _ => none
 
-def fmtOut (f : Fmt) (o : Out) : String :=
+/-- `nullnd`: the call got NULL for its out-parameter (`nullnd 1`): no drop column in the answer -/
+def retDrop (nullnd : Bool) (o : Out) : String :=
+  if nullnd then s!"{o.ret}" else s!"{o.ret} {o.ndropped}"
+
+def fmtOut (f : Fmt) (o : Out) (nullnd : Bool := false) : String :=
   match f with
-  | .retDrop => s!"{o.ret} {o.ndropped}"
+  | .retDrop => retDrop nullnd o
   | .retBytes => s!"{o.ret} {Hex.encode (o.bytes.getD [])}"
   | .retOptBytes => s!"{o.ret} {optHex o.bytes}"
   | .ret => s!"{o.ret}"
@@ -81,6 +86,7 @@ structure St (α : Type) where
   a : Option α := none
   b : Option α := none
   second : Bool := false
+  nullnd : Bool := false
 
 def St.cur {α : Type} (s : St α) : Option α := if s.second then s.b else s.a
 def St.other {α : Type} (s : St α) : Option α := if s.second then s.a else s.b
@@ -110,6 +116,12 @@ def stepModel (st : St Cbuf) (line : String) : St Cbuf × String :=
   | ["eintr", _] => (st, "ok")      -- interrupted read()/write() calls are retried: no effect
   | ["errno", _] => (st, "ok")      -- which errno an exhausted source / sink fails with: no effect
   | ["sel", i] => ({ st with second := i = "1" }, "ok")
+  | ["nullnd", i] => ({ st with nullnd := i = "1" }, "ok")
+  | ["refused", k] =>
+    match st.cur, k.toNat?.bind Refusal.ofNat? with
+    | none, _ => (st, "no-cbuf")
+    | _, none => (st, "bad-op")
+    | some c, some k => let (o, c') := stepMRefused c k; (st.setCur (some c'), retDrop st.nullnd o ++ statM c')
   | ["create", mn, mx, smeta] =>
     match mn.toInt?, mx.toInt?, smeta.toNat? with
     | some mn, some mx, some smeta =>
@@ -123,7 +135,7 @@ def stepModel (st : St Cbuf) (line : String) : St Cbuf × String :=
       | some len, some src, some dst =>
         let op : Op2 := if k = "copy" then .copy false len else .move false len
         let (o, (src', dst')) := stepM2 (src, dst) op (polFor dst ann)
-        ((st.setCur (some src')).setOther (some dst'), s!"{o.ret} {o.ndropped}" ++ statM src' ++ statM dst')
+        ((st.setCur (some src')).setOther (some dst'), retDrop st.nullnd o ++ statM src' ++ statM dst')
       | none, _, _ => (st, "bad-op")
       | _, _, _ => (st, "no-cbuf")
     else
@@ -131,13 +143,13 @@ def stepModel (st : St Cbuf) (line : String) : St Cbuf × String :=
       | none, _ => (st, "no-cbuf")
       | _, none => (st, "bad-op")
       | some c, some (op, f) =>
-        let (o, c') := stepMR c op (polFor c ann); (st.setCur (some c'), fmtOut f o ++ statM c')
+        let (o, c') := stepMR c op (polFor c ann); (st.setCur (some c'), fmtOut f o st.nullnd ++ statM c')
   | ws =>
     match st.cur, parseOp ws with
     | none, _ => (st, "no-cbuf")
     | _, none => (st, "bad-op")
     | some c, some (op, f) =>
-      let (o, c') := stepMR c op (polFor c ann); (st.setCur (some c'), fmtOut f o ++ statM c')
+      let (o, c') := stepMR c op (polFor c ann); (st.setCur (some c'), fmtOut f o st.nullnd ++ statM c')
 
 /-- spec lines are the op lines annotated by the harness run: `<op ...> @ <impl-ret> <impl-size>` -/
 def stepSpec (st : St Spec.RFifo) (line : String) : St Spec.RFifo × String :=
@@ -151,6 +163,12 @@ def stepSpec (st : St Spec.RFifo) (line : String) : St Spec.RFifo × String :=
   | ["eintr", _] => (st, "ok")      -- EINTR is not an answer of any call: the property is unaffected
   | ["errno", _] => (st, "ok")      -- the property does not distinguish the errors of a descriptor
   | ["sel", i] => ({ st with second := i = "1" }, "ok")
+  | ["nullnd", i] => ({ st with nullnd := i = "1" }, "ok")
+  | ["refused", k] =>
+    match st.cur, k.toNat?.bind Refusal.ofNat? with
+    | none, _ => (st, "no-cbuf")
+    | _, none => (st, "bad-op")
+    | some r, some k => let (o, r') := stepSRefused r k; (st.setCur (some r'), retDrop st.nullnd o ++ statS r')
   | ["create", mn, mx, _] =>
     match mn.toInt?, mx.toInt? with
     | some mn, some mx =>
@@ -166,7 +184,7 @@ def stepSpec (st : St Spec.RFifo) (line : String) : St Spec.RFifo × String :=
         let op : Op2 := if k = "copy" then .copy false len else .move false len
         match stepS2 (src, dst) op taken sz with
         | some (o, (src', dst')) =>
-          ((st.setCur (some src')).setOther (some dst'), s!"{o.ret} {o.ndropped}" ++ statS src' ++ statS dst')
+          ((st.setCur (some src')).setOther (some dst'), retDrop st.nullnd o ++ statS src' ++ statS dst')
         | none => (st, "BAD-ANSWER")
       | none, _, _ => (st, "bad-op")
       | _, _, _ => (st, "no-cbuf")
@@ -176,7 +194,7 @@ def stepSpec (st : St Spec.RFifo) (line : String) : St Spec.RFifo × String :=
       | _, none => (st, "bad-op")
       | some r, some (op, f) =>
         match stepSR r op taken sz with
-        | some (o, r') => (st.setCur (some r'), fmtOut f o ++ statS r')
+        | some (o, r') => (st.setCur (some r'), fmtOut f o st.nullnd ++ statS r')
         | none => (st, "BAD-ANSWER")
   | ws =>
     match st.cur, parseOp ws with
@@ -184,7 +202,7 @@ def stepSpec (st : St Spec.RFifo) (line : String) : St Spec.RFifo × String :=
     | _, none => (st, "bad-op")
     | some r, some (op, f) =>
       match stepSR r op taken sz with
-      | some (o, r') => (st.setCur (some r'), fmtOut f o ++ statS r')
+      | some (o, r') => (st.setCur (some r'), fmtOut f o st.nullnd ++ statS r')
       | none => (st, "BAD-ANSWER")
 
 def main (args : List String) : IO UInt32 := do
